@@ -155,7 +155,9 @@ def threads_stage(res, tier, seed, workdir, stats):
     info = hh.runner_info(binp)
     r = random.Random(seed * 31337 + 5)
     bs = [gen.interleave(r, P.sels_for(info), nh=r.randrange(2, 6), force=True) for _ in range(60 if tier == "quick" else 600)] + \
-         [gen.builders(r) for _ in range(60 if tier == "quick" else 600)]
+         [gen.builders(r) for _ in range(60 if tier == "quick" else 600)] + \
+         [gen.shared_builders(r, info) for _ in range(40 if tier == "quick" else 400)] + \
+         [gen.shared_stress(r) for _ in range(48 if tier == "quick" else 300)]
     cases = [b.case() for b in bs]
     seq, _ = hh.run_real(binp, cases, workdir, "C15.threads.seq", shards=1)
     par, crashed = hh.run_real(binp, cases, workdir, "C15.threads.par", extra_args=["--threads=16"], shards=1)
